@@ -421,6 +421,57 @@ theorem added_route_without_slash_would_escape :
       { req with path := "/kapacitor/v1/tasks".toList }).status = 403 := by
   decide
 
+/-- A URL path that reaches a route handler has no "." and no ".." element (and no empty one except in front
+and at the very end) — whatever spelled them. -/
+theorem served_path_has_no_dot_elements (cfg : Cfg) (hextra : ∀ r ∈ cfg.extra, r.kind = .recorder ∧ r.bypass = false)
+    (fuel : Nat) (req : Req)
+    (h : (serveHTTP cfg fuel req).served = true ∨ (serveHTTP cfg fuel req).wrote = true) :
+    ∀ s ∈ split req.path, s = [] ∨ (s ≠ [] ∧ s ≠ ['.'] ∧ s ≠ ['.', '.']) := by
+  have hc := (serveHTTP_sound cfg hextra fuel req _ rfl h).cleanPath
+  obtain ⟨cs, hp⟩ := muxClean_rooted req.path hc
+  rw [hp] at hc ⊢
+  exact muxClean_segs cs hc
+
+/-- **Encoded traversal** (`%2e%2e`, `%2F`, raw high bytes, double encoding): a request as it arrives on the wire
+is served or written only if net/http accepted the target, and then everything above holds of the path obtained
+by ONE pass of percent-decoding — the one string both the mux and `authorizeRequest` read: it is its own cleaned
+form, has no "." / ".." element however those were spelled, and its API resource lies below "/api". -/
+theorem encoded_traversal_never_served (cfg : Cfg)
+    (hextra : ∀ r ∈ cfg.extra, r.kind = .recorder ∧ r.bypass = false ∧ viaAddRoute r.pattern = true)
+    (fuel : Nat) (r : RawReq) (out : HttpOut) (hr : serveRaw cfg fuel r = some out)
+    (h : out.served = true ∨ out.wrote = true) :
+    ∃ p, parseTarget r.target = some p ∧ muxCleanPath p = p ∧
+      (∀ s ∈ split p, s = [] ∨ (s ≠ [] ∧ s ≠ ['.'] ∧ s ≠ ['.', '.'])) ∧
+      ∃ names, nodeOf (apiResource (trimPrefix p Gen.basePath)) = some ("api".toList :: names) := by
+  unfold serveRaw at hr
+  cases hp : parseTarget r.target with
+  | none => rw [hp] at hr; cases hr
+  | some p =>
+    rw [hp] at hr
+    injection hr with hr
+    subst hr
+    have hx : ∀ r ∈ cfg.extra, r.kind = .recorder ∧ r.bypass = false := fun r hr => ⟨(hextra r hr).1, (hextra r hr).2.1⟩
+    let req : Req := { method := r.method, path := p, auth := r.auth, db := r.db }
+    have h' : (serveHTTP cfg fuel req).served = true ∨ (serveHTTP cfg fuel req).wrote = true := h
+    exact ⟨p, rfl, (serveHTTP_sound cfg hx fuel req _ rfl h').cleanPath,
+      served_path_has_no_dot_elements cfg hx fuel req h', served_resource_below_api cfg hextra fuel req h'⟩
+
+/-- Percent-decoding is the identity on a target without '%', so the plain requests are the special case. -/
+theorem pctDecode_plain (p : List Char) (h : '%' ∉ p) : pctDecode p = some p := by
+  induction p with
+  | nil => rfl
+  | cons c cs ih =>
+    have hc : c ≠ '%' := fun e => h (by simp [e])
+    have hcs : '%' ∉ cs := fun e => h (by simp [e])
+    have : pctDecode (c :: cs) = match pctDecode cs with | some r => some (c :: r) | none => none := by
+      rw [pctDecode.eq_def]
+      split
+      · rename_i heq; cases heq
+      · rename_i heq; injection heq with h1 _; exact absurd h1 hc
+      · rename_i heq; injection heq with h1 _; exact absurd h1 hc
+      · rename_i heq; injection heq with h1 h2; subst h1; subst h2; rfl
+    rw [this, ih hcs]
+
 /-- … while the function by itself does leave the subtree (so the mux's redirect is load-bearing). -/
 theorem api_resource_can_escape :
     apiResource "../database/x".toList = "/database/x".toList ∧ muxCleanPath "/kapacitor/v1/../database/x".toList ≠ "/kapacitor/v1/../database/x".toList ∧
@@ -514,6 +565,24 @@ example :
     apiResource (trimPrefix "/kapacitor/v1../database/x".toList Gen.basePath) = "/database/x".toList ∧
     (serveHTTP cfg 2 { method := "GET".toList, path := "/kapacitor/v1../database/x".toList, auth := cred }).status = 403 ∧
     (serveHTTP { cfg with requireAuth := false } 2 { method := "GET".toList, path := "/kapacitor/v1../database/x".toList }).status = 404 := by
+  decide
+
+-- `encoded_traversal_never_served`: what the encoded spellings decode to, and what happens to them
+example :
+    let alice : Account := { grants := [("/api".toList, [2, 4]), ("/database".toList, [4])] }
+    let cfg : Cfg := { requireAuth := true, svc := { users := [("alice".toList, "pw".toList, alice)] },
+                       extra := [{ method := "GET".toList, pattern := "/kapacitor/v1/tasks/".toList, kind := .recorder }] }
+    let cred : ReqAuth := { header := .basic "alice".toList "pw".toList }
+    let get (t : String) := (serveRaw cfg 2 { method := "GET".toList, target := t.toList, auth := cred }).map (·.status)
+    parseTarget "/kapacitor/v1/tasks%2F..%2F..%2Fwrite".toList = some "/kapacitor/v1/tasks/../../write".toList ∧
+    get "/kapacitor/v1/tasks%2F..%2F..%2Fwrite" = some 301 ∧          -- decoded, then redirected by the mux
+    get "/kapacitor/v1/tasks/%2e%2e/%2E%2E/write" = some 301 ∧
+    get "/kapacitor/v1/tasks/x%2Fy" = some 200 ∧                      -- an encoded slash IS a slash (served as /tasks/x/y)
+    parseTarget "/kapacitor/v1/tasks/%252e%252e/x".toList = some "/kapacitor/v1/tasks/%2e%2e/x".toList ∧
+    get "/kapacitor/v1/tasks/%252e%252e/x" = some 200 ∧               -- decoded ONCE: "%2e%2e" is then an ordinary name
+    get "/kapacitor/v1%2e%2e/database/x" = some 403 ∧                 -- the escaping URL: refused (no grant on /database/x) …
+    get "/kapacitor/v1/tasks/%zz" = none ∧ get "/kapacitor/v1/tasks/%2" = none ∧ get "kapacitor" = none ∧
+    (serveRaw cfg 2 { method := "GET".toList, target := "/kapacitor/v1/tasks/x%2Fy".toList, auth := cred }).map (·.served) = some true := by
   decide
 
 -- `database_resource_injective_partial`: its hypothesis holds for ordinary names
